@@ -68,6 +68,16 @@ func subTLD(out string, seed uint64, tier string, arg string) {
 			}
 		}
 		instants = append(instants, time.Date(2024, 6, 1, 12, 0, 0, 0, time.UTC))
+		// instants far from today: the earliest and latest dates a certificate can carry (GeneralizedTime years 0001 and
+		// 9999, incl. RFC 5280's 99991231235959Z), and years outside the 64-bit nanosecond range (1678..2262)
+		far := []time.Time{time.Date(9999, 12, 31, 23, 59, 59, 0, time.UTC), time.Date(9999, 12, 31, 0, 0, 1, 0, time.UTC), time.Date(9999, 12, 30, 23, 59, 59, 0, time.UTC),
+			time.Date(1, 1, 1, 0, 0, 1, 0, time.UTC), time.Date(1601, 1, 1, 0, 0, 0, 0, time.UTC), time.Date(1677, 1, 1, 0, 0, 0, 0, time.UTC), time.Date(2263, 1, 1, 0, 0, 0, 0, time.UTC),
+			time.Date(2600, 2, 29, 0, 0, 0, 0, time.UTC), time.Date(5000, 1, 1, 0, 0, 0, 0, time.UTC), time.Date(1970, 1, 1, 0, 0, 0, 0, time.UTC), time.Date(1969, 12, 31, 23, 59, 59, 0, time.UTC)}
+		if i%16 == 0 {
+			instants = append(instants, far...)
+		} else {
+			instants = append(instants, far[i%len(far)])
+		}
 		for j, t := range instants {
 			dom := "www.example." + k
 			switch (i + j) % 5 {
